@@ -79,7 +79,7 @@ func runHelper(q helperReq, gomaxprocs int) (helperRsp, error) {
 	cmd := exec.Command(self)
 	// the race runtime sleeps 1 s at exit by default; the helper is single-threaded
 	cmd.Env = append(os.Environ(), "C41_HELPER="+string(d), fmt.Sprintf("GOMAXPROCS=%d", gomaxprocs),
-		strings.TrimSpace(os.Getenv("GORACE")+" atexit_sleep_ms=0"))
+		"GORACE="+strings.TrimSpace(os.Getenv("GORACE")+" atexit_sleep_ms=0"))
 	var out, errb bytes.Buffer
 	cmd.Stdout = &out
 	cmd.Stderr = &errb
@@ -133,7 +133,7 @@ func plan(tier string, seed int64) []kit.Batch {
 	add := func(name string, n int, p params, env ...string) {
 		bs = append(bs, kit.Batch{Name: name, Seed: seed*1000 + int64(len(bs)), N: n, Params: kit.MkParams(p), Env: env})
 	}
-	per, nconc, nck, nrep := 130000, 10, 60, 6
+	per, nconc, nck, nrep := 100000, 10, 40, 5
 	rep := 1
 	if tier == "thorough" {
 		per, nconc, nck, nrep = 4000000, 12, 1500, 40
@@ -368,7 +368,7 @@ func runRepro(b kit.Batch, r *kit.R, p params) {
 	}
 	r.ForEach(b.N, func(c *kit.Case) {
 		rng := c.Rng
-		n := 1 + rng.Intn(3000)
+		n := 1 + rng.Intn(2000)
 		mpA, mpB := 1+rng.Intn(8), 1+rng.Intn(8)
 		c.Desc(map[string]any{"scenario": "repro", "use": use, "n": n, "gomaxprocs": []int{mpA, mpB}})
 		a, err := runHelper(helperReq{Use: use, N: n}, mpA)
